@@ -170,7 +170,7 @@ static hc::Outcome run_one(hc::RunSpec& rs) {
     bool thorough_models = c.i("big", 0) != 0;
     int P; { int x = r.below(100); P = x < 10 ? 1 : x < 60 ? r.range(2, 4) : x < 85 ? r.range(5, 8) : r.pick(std::vector<int>{9, 12, 16}); }
     c.def("P", P); P = std::max(1, std::min(16, (int)c.i("P"))); c.set("P", P);
-    int model; { int x = r.below(100); model = x < 25 ? models::ATOM : x < 60 ? models::DIMER : x < 72 ? models::KANAMORI : x < 80 ? models::ATOM_FIELD : x < 87 ? models::DIMER_FIELD : x < 91 ? models::ATOMS2 : x < 94 ? models::EXCH2 : x < 96 ? models::TINYDIMER : (thorough_models ? (r.pct(70) ? models::CHAIN3 : models::T2G) : models::DIMER); }
+    int model; { int x = r.below(100); model = x < 25 ? models::ATOM : x < 60 ? models::DIMER : x < 72 ? models::KANAMORI : x < 80 ? models::ATOM_FIELD : x < 86 ? models::DIMER_FIELD : x < 89 ? models::ATOMS2 : x < 92 ? models::EXCH2 : x < 96 ? models::TINYDIMER : (thorough_models ? (r.pct(70) ? models::CHAIN3 : models::T2G) : models::DIMER); }
     c.def("model", model); model = (int)c.i("model") % models::N_MODELS; if (model < 0) model = 0; c.set("model", model);
     c.def("mp", r.pct(15) ? 0 : r.range(1, 100000));
     c.def("nosym", r.pct(15));
